@@ -31,6 +31,7 @@ type schedule struct {
 	name       string
 	phaseLen   int64
 	txPerBlock int
+	downtime   int  // after the crash the keyper stays down for this many rounds before it is restarted
 	rerun      bool // the first key generation fails (keyper 2 silent, keyper 1 pauses through its dealing phase) and shuttermint starts a second one
 	byz        bool // keyper 2 is played by the harness: wrong evaluation for keyper 0, false accusation of keyper 0, no apology (keyper 1 is a bystander of both accusations, keyper 0 accuses and apologises)
 }
@@ -45,6 +46,11 @@ type schedule struct {
 var schedules = []schedule{
 	{name: "block-per-round", phaseLen: 6}, {name: "block-per-transaction", phaseLen: 20, txPerBlock: 1},
 	{name: "block-per-round-with-accusations", phaseLen: 6, byz: true}, {name: "failed-then-rerun", phaseLen: 6, byz: true, rerun: true},
+	// schedule 4: the crashed keyper is restarted only after more than a DKG phase (crash points
+	// from shortly before the eon starts to the end of its dealing phase). Its own messages come
+	// late, so the run is not compared with the crash-free twin; it must replay the blocks like a
+	// keyper that was merely slow: everybody still derives the same key.
+	{name: "crash-then-downtime", phaseLen: 6, downtime: 8},
 }
 
 type crashPoint struct {
@@ -55,11 +61,17 @@ type crashPoint struct {
 	second *crashPoint // optional second crash (on the restarted incarnation)
 }
 
+// rtAtRound[sc][k][r]: round trips keyper k had issued when round r of the crash-free run began
+var rtAtRound [5][3][]int
+
+// eonStartHeight[sc]: height at which eon 1 started in the crash-free run
+var eonStartHeight [5]int64
+
 var (
 	points  []crashPoint
-	twin    [4]*outcome
-	censusR [4][3]int
-	censusC [4][3][]int // committing round-trip indices per keyper
+	twin    [5]*outcome
+	censusR [5][3]int
+	censusC [5][3][]int // committing round-trip indices per keyper
 )
 
 const (
@@ -93,6 +105,7 @@ func main() {
 			agg.Require("runs_block-per-transaction", 50)
 			agg.Require("runs_block-per-round-with-accusations", 50)
 			agg.Require("runs_failed-then-rerun", 50)
+			agg.Require("runs_crash-then-downtime", 50)
 			agg.Extra["census_round_trips_keyper1"] = censusR[0][1]
 			agg.Extra["census_committing_round_trips_keyper1"] = len(censusC[0][1])
 			agg.Extra["census_round_trips_keyper1_block_per_transaction"] = censusR[1][1]
@@ -151,6 +164,23 @@ func prepare(env *vlib.Env) (int, error) {
 			keypers = []int{int(env.Seed % 3)}
 		}
 
+		if schedules[sc].downtime > 0 {
+			// crash points of one keyper (thorough: all) from two rounds before the eon starts to the
+			// end of its dealing phase
+			if !env.Thorough {
+				keypers = []int{int(env.Seed % 3)}
+			}
+			for _, k := range keypers {
+				lo, hi := int(eonStartHeight[sc])-2, int(eonStartHeight[sc])+int(schedules[sc].phaseLen)+2
+				if lo < 0 || hi >= len(rtAtRound[sc][k]) {
+					return 0, fmt.Errorf("crash-free twin run (%s): eon start %d outside the recorded rounds", schedules[sc].name, eonStartHeight[sc])
+				}
+				for r := rtAtRound[sc][k][lo]; r < rtAtRound[sc][k][hi]; r++ {
+					points = append(points, crashPoint{sched: sc, keyper: k, kind: pgmem.CrashBefore, at: r})
+				}
+			}
+			continue
+		}
 		for _, k := range keypers {
 			for r := 0; r < censusR[sc][k]; r++ {
 				points = append(points, crashPoint{sched: sc, keyper: k, kind: pgmem.CrashBefore, at: r})
@@ -164,7 +194,7 @@ func prepare(env *vlib.Env) (int, error) {
 		rng := vlib.NewRng(env.Seed, 8)
 		for i := 0; i < 1500; i++ {
 			k := rng.Intn(3)
-			sc := rng.Intn(4)
+			sc := rng.Intn(4) // pairs of crashes only in the schedules with an immediate restart
 			if schedules[sc].byz {
 				k = rng.Intn(2)
 			}
@@ -215,6 +245,16 @@ func runCase(env *vlib.Env, idx int, rep *vlib.Reporter) {
 		if o.pubKey[k] != o.pubKey[0] {
 			rep.Violationf("keypers-disagree-on-eon-key", map[string]any{"crash": desc, "keyper": k}, "keyper %d holds a different eon public key than keyper 0", k)
 			return
+		}
+		if schedules[p.sched].downtime > 0 {
+			// the keyper was away for more than a phase: its own messages are late by design; what
+			// must hold is that it replays the missed blocks like a slow keyper and everybody still
+			// derives the key (n=3, t=2, all honest: two dealers always qualify)
+			if !o.success[k] {
+				rep.Violationf("dkg-fails-after-downtime", map[string]any{"crash": desc, "keyper": k}, "keyper %d reports a failed key generation although all keypers are honest and at least two dealt in time", k)
+				return
+			}
+			continue
 		}
 		if heightsDependOnTiming := schedules[p.sched].txPerBlock > 0; heightsDependOnTiming {
 			// a re-sent or delayed transaction shifts all later heights, and the position of
@@ -350,6 +390,9 @@ func run(ctx context.Context, env *vlib.Env, sc int, cp *crashPoint) *outcome {
 		})
 	}
 	if cp == nil {
+		for i := range rtAtRound[sc] {
+			rtAtRound[sc][i] = nil
+		}
 		// census of committing round trips (explicit COMMIT that changed something, or an
 		// auto-commit statement that wrote)
 		for _, k := range live {
@@ -387,8 +430,15 @@ func run(ctx context.Context, env *vlib.Env, sc int, cp *crashPoint) *outcome {
 		})
 	}
 	lastFaultRound := -1
+	downUntil := -1 // round at which the crashed keyper comes back (schedule with downtime)
 	for round := 0; round < maxRounds; round++ {
 		o.rounds = round + 1
+		if cp == nil {
+			for _, k := range live {
+				t, _ := k.Node.DB.RoundTrips(k.Incarnation())
+				rtAtRound[sc][k.Idx] = append(rtAtRound[sc][k.Idx], t)
+			}
+		}
 		if schedules[sc].rerun && pauseFrom < 0 {
 			if h0, ok := eonStart(s, 1); ok {
 				pauseFrom, pauseUntil = h0, h0+schedules[sc].phaseLen+1
@@ -398,10 +448,27 @@ func run(ctx context.Context, env *vlib.Env, sc int, cp *crashPoint) *outcome {
 			if k.Idx == 1 && pauseFrom >= 0 && s.Chain.Height() >= pauseFrom && s.Chain.Height() < pauseUntil {
 				continue
 			}
+			if cp != nil && k.Idx == cp.keyper && downUntil >= 0 {
+				if round < downUntil {
+					continue // the process is down
+				}
+				downUntil = -1
+				o.restarts++
+				lastFaultRound = round
+				if rerr := k.Restart(ctx); rerr != nil {
+					fail("restart-failed", map[string]any{"error": rerr.Error()})
+					return o
+				}
+			}
 			sctx, c := context.WithCancel(ctx)
 			cancel = c
 			err := k.Step(sctx)
 			c()
+			if dead[k.Incarnation()] && schedules[sc].downtime > 0 && o.restarts == 0 {
+				downUntil = round + 1 + schedules[sc].downtime
+				lastFaultRound = downUntil
+				continue
+			}
 			if dead[k.Incarnation()] {
 				// the process died: the kernel is gone, its connections are frozen; start it again
 				if lastWriteName == "GetNextShutterMessage" || lastWriteName == "DeleteShutterMessage" {
@@ -461,7 +528,7 @@ func run(ctx context.Context, env *vlib.Env, sc int, cp *crashPoint) *outcome {
 				break
 			}
 		}
-		if cp != nil && round > twin[sc].rounds+10 {
+		if cp != nil && round > twin[sc].rounds+10+schedules[sc].downtime {
 			fail("not-finished-within-10-steps-of-the-crash-free-run", map[string]any{"round": round, "crash_free_rounds": twin[sc].rounds})
 			break
 		}
@@ -504,6 +571,9 @@ func run(ctx context.Context, env *vlib.Env, sc int, cp *crashPoint) *outcome {
 		}
 	}
 	judgeChain(s, o, fail, byz != nil)
+	if cp == nil {
+		eonStartHeight[sc], _ = eonStart(s, 1)
+	}
 	if cp == nil {
 		for _, k := range live {
 			i := k.Idx
